@@ -187,9 +187,12 @@ def enumerate_cases(tier, seed):
             for tr in dict.fromkeys([(rr[0], rr[1]), (0, rr[1] - rr[0])]):
                 cases.append({"fam": "range", "sub": "rsize-rows", "res": [*rr, 0, 3], "tgt": [*tr, 0, 3], "tshape": [6, 7]})
     # readout ranges: 3 readouts; target cubes with 3 (quick) and 2, 4 frames (thorough)
-    for nframes in (3, 2, 4) if thorough else (3,):
+    for nframes in (3, 2, 4):
         res_opts = [None] + subranges(3) + [(0, 4), (2, 4)]
         tgt_opts = [None] + subranges(nframes) + [(0, nframes + 1)]
+        if not thorough and nframes != 3:
+            # quick: target cubes with another number of frames than there are readouts, open / full / overshooting ranges
+            res_opts, tgt_opts = [None, (0, 3), (0, 4)], [None, (0, nframes)]
         for rt in res_opts:
             for tt in tgt_opts:
                 res = [1, 3, 0, 5] if rt is None else [*rt, 1, 3, 0, 5]
@@ -282,6 +285,8 @@ def expected_size(tier, seed):
     over = [(a, b) for a, b in subranges(ROWS + 2) if b > ROWS or thorough]
     rsize = sum(1 if a == 0 else 2 for a, b in over)
     time = sum((1 + nsub(3) + 2) * (1 + nsub(nf) + 1) for nf in ((3, 2, 4) if thorough else (3,)))
+    if not thorough:
+        time += 2 * 3 * 2
     fit = len(FUNCS) * 3 * ((3 + 4) + (3 + 4) + (3 + 4)) + len(FUNCS) * 2 + len(FUNCS) * 3 * 3 + len(FUNCS) * 2 * 2
     combos = 3 * 2 * 2 * 2 * 2
     runs = (combos * 2 if thorough else combos // 2 + combos // 4) + 1 + 2 + 4
